@@ -28,6 +28,7 @@ def check(ctx, tier):
     rlrules.canonical_construction(ctx, "C14.b", ctx.func(RL + "_apply_binary_func"))
     rlrules.delete_helpers(ctx, "C14.b")
     rlrules.boundary_arguments(ctx, "C14.b")
+    rlrules.empty_interval_direction(ctx, "C14.b")
     slice_nonempty(ctx, tk)
     encoder(ctx, tk)
     decoder(ctx, tk)
@@ -131,7 +132,10 @@ def encoder(ctx, tk):
             ctx.decide("C14.c", f, "run values are the array's elements at the run starts (all boundaries but the last), from the same mask as the boundaries",
                        True if (ok1 and ok2) else (False if bad else None), "values are %s" % (va,), node=r.ast, key="co-derived", engine="E6")
             # mask: left-extended != right-extended (neighbour comparison)
-            mask = ev.a[1][0] if ev.a[1] else None
+            evc = next((a for a in alts(ev) for x in [a] if np_call(x, {"flatnonzero"}) or (x.k == "call" and x.a[0].k == "attr" and x.a[0].a[1] == "astype" and np_call(x.a[0].a[0], {"flatnonzero"}))), None)
+            if evc is not None and not np_call(evc, {"flatnonzero"}):
+                evc = evc.a[0].a[0]
+            mask = evc.a[1][0] if (evc is not None and evc.a[1]) else None
             if mask is not None:
                 core = mask
                 while core.k == "upd":
